@@ -20,8 +20,25 @@ theorem good_init : Good init := ⟨inv_init, walinv_init⟩
 theorem walinv_touch {s : State} (h : WalInv s) : WalInv s.touch :=
   h.congr rfl rfl rfl rfl rfl rfl rfl rfl
 
-theorem good_snapBegin {s : State} (h : Good s) : Good (stepSnapBegin s).1 :=
-  ⟨inv_stepSnapBegin h.inv, walinv_stepSnapBegin h.inv h.wal⟩
+theorem good_snapBegin {s : State} (h : Good s) (hrc : RetryClean s) : Good (stepSnapBegin s).1 :=
+  ⟨inv_stepSnapBegin h.inv, walinv_stepSnapBegin h.inv h.wal hrc⟩
+
+theorem good_snapFail {s : State} (h : Good s) (hrc : RetryClean s) : Good (stepSnapFail s).1 :=
+  ⟨inv_stepSnapFail h.inv, walinv_stepSnapFail h.inv h.wal hrc⟩
+
+theorem lastRec_snapFail (s : State) : (stepSnapFail s).1.lastRec = false := by
+  rcases stepSnapFail_cases s with he | ⟨he, _, hp⟩ | ⟨he, hp⟩
+  · rw [he]; rfl
+  · rw [he]; exact lastRec_stepSnapBegin' hp
+  · rw [he]; exact lastRec_stepSnapBegin' hp
+
+/-- what a history must avoid for the crash theorems: a delete that covers a point of the
+    in-flight (or failed, pending) snapshot store — F1 —, and a retry of a failed snapshot
+    attempt after further writes — the retry's WAL removal loses them (F18) -/
+def opSafe (s : State) : Op → Bool
+  | .delete ss lo hi => decide (SnapClear s ss lo hi)
+  | .snapBegin | .snapFail => decide (RetryClean s)
+  | _ => true
 
 theorem good_snapStep {s : State} (h : Good s) : Good (stepSnapStep s).touch :=
   ⟨inv_touch (inv_stepSnapStep h.inv), walinv_touch (walinv_stepSnapStep h.inv h.wal)⟩
@@ -129,6 +146,7 @@ theorem abs_deleteCrash {s : State} (h : Good s) {ss : List Nat} {lo hi : Int}
     · exact hs.S_snap (Or.inr (Or.inl hp))
     · rw [hp] at hl; cases hl
     · rw [hp] at hl; cases hl
+    · exact hs.S_snap (Or.inr (Or.inr (Or.inr hp)))
   rw [hSs]
   by_cases hc : covered ss lo hi k t = true
   · simp only [hc, if_true]
